@@ -4,7 +4,9 @@ import hashlib, json, os, random, shutil, sys, time, traceback
 from . import runner, tlc
 
 ROOT = os.path.dirname(os.path.dirname(os.path.abspath(__file__)))
-EVID = os.path.join(ROOT, "evidence")
+# evidence is only ever written for /repo itself; runs against a scratch tree (VERIF_REPO, development
+# and mutation testing) write theirs under work/ so that they cannot clobber the committed evidence
+EVID = os.path.join(ROOT, "evidence") if os.path.abspath(runner.REPO) == "/repo" else os.path.join(ROOT, "work", "evidence-scratch")
 FINDINGS = os.path.join(ROOT, "findings.d")   # known findings: one committed jsonl file per property
 
 
